@@ -29,7 +29,7 @@ PROPS = {
         "scope": "partial (everything except the curve arithmetic): verify_label accepts iff key and proof parse, the VRF accepts the proof for the hash input of (label, freshness, version) "
                  "and the claimed node label equals the truncated VRF output with length 256 (Verus, unbounded); the hash input is be64(|label|) || label || [freshness] || be64(version) "
                  "(Kani on the real functions with a recording hash stub, both configurations; BOUNDED in the label length, full-domain otherwise) and that encoding is injective "
-                 "(Verus lemma, unbounded); leaf-hash and commitment-nonce pre-images (nonce contains the key-derived commitment key); output truncation = first 32 bytes. "
+                 "(Verus lemma, unbounded); leaf-hash and commitment-nonce pre-images (nonce contains the key-derived commitment key); output truncation = first 32 bytes; the key and proof parsers refuse every byte string of the wrong length (Kani, curve operations stubbed). "
                  "VRF completeness, uniqueness and key separation are cryptographic assumptions.",
         "trusted": ["everything in ecvrf_impl.rs (prove/verify/evaluate, proof (de)serialisation) and the hash functions themselves (blake3)",
                     "u64::to_be_bytes is the big-endian byte string (be64)"],
